@@ -185,7 +185,9 @@ def validate_translation(meta, seed, n=200):
         want = tm.evaluate(meta["result_term"], envv)
         d = py_det(pts)
         oracle = (d > 0) - (d < 0)
-        if "r" not in a or a["r"] != float(want) or float(want) != oracle:
+        # a TRANSLATION mismatch is symbolic term != compiled function (machinery trouble). term == real != oracle is not:
+        # it is the code disagreeing with the property, which the obligation result_is_sign_of_det decides (and replays).
+        if "r" not in a or a["r"] != float(want):
             bad.append({"pts": pts, "real": a, "term": float(want), "oracle": oracle})
     return len(cases), bad
 
